@@ -63,6 +63,7 @@ type Exec struct {
 	frame    []region
 	frameDone bool
 	frameOrd int
+	ptrs     map[string]*Ptr
 	allocsByName map[string][]*ssa.Alloc
 }
 
